@@ -386,6 +386,7 @@ class Program(object):
             elif isinstance(n, ast.arg):
                 local_names.add(n.arg)
         done = {}
+        new_classes = set()
         work = [fn]
         rounds = 0
         while work and rounds < 4:
@@ -397,6 +398,28 @@ class Program(object):
                         continue
                     target = None
                     method = False
+                    # a class the reference tree did not have, instantiated
+                    # or called through (NewClass(...), NewClass.make(...)):
+                    # not followed; what the rules report about this
+                    # function is withheld
+                    cq = c.func.id if isinstance(c.func, ast.Name) else (
+                        c.func.value.id if isinstance(c.func, ast.Attribute)
+                        and isinstance(c.func.value, ast.Name) else None)
+                    if cq is not None and cq not in local_names:
+                        dcl = m.defs.get(cq)
+                        kn = known
+                        if dcl is None and ":" in m.imports.get(cq, ""):
+                            mod2, _, name2 = m.imports[cq].partition(":")
+                            m2 = self.modules.get(mod2)
+                            dcl = m2.defs.get(name2) if m2 is not None \
+                                else None
+                            kn = _known_names().get(mod2)
+                            cq2 = name2
+                        else:
+                            cq2 = cq
+                        if isinstance(dcl, ast.ClassDef) and kn is not None \
+                                and cq2 not in kn:
+                            new_classes.add(cq)
                     if isinstance(c.func, ast.Name):
                         q = c.func.id
                         d = m.defs.get(q)
@@ -451,6 +474,7 @@ class Program(object):
                         if method:
                             c.args.insert(0, recv)
             work = nxt
+        fn._new_classes = sorted(new_classes)
         if not done:
             return
         pos = 0
@@ -626,12 +650,17 @@ class Report(object):
         (the rule becomes undecided) unless the rule is written to follow
         such helpers (``fn.helper_aware``): its reading of a restructured
         function is not reliable enough to raise an alarm."""
-        if getattr(fn, "helper_aware", False) or len(self.findings) == n0:
+        if len(self.findings) == n0:
             return
+        aware = getattr(fn, "helper_aware", False)
         split = {}
         for f in _FETCHED[f0:]:
-            names = sorted(h.name for h in ast.walk(f)
-                           if getattr(h, "_virtual", False))
+            # (a rule that follows helper functions still does not follow
+            # the methods of a class introduced since)
+            names = ([] if aware else sorted(
+                h.name for h in ast.walk(f)
+                if getattr(h, "_virtual", False))) + \
+                list(getattr(f, "_new_classes", []))
             if names and getattr(f, "_module", None) is not None:
                 split["%s:%s" % (f._module.name, f._qualname)] = names
         if not split:
@@ -664,7 +693,7 @@ class Report(object):
         inst = sorted(set(fd.instance for fd in held))
         self.undecided(sorted(set(fd.rule for fd in held)),
                        "%d report(s) about %s withheld: the function now "
-                       "delegates to helper function(s) %s that the "
+                       "delegates to helper(s) %s that the "
                        "reference tree did not have and this rule does not "
                        "follow" % (len(held), ", ".join(inst), ", ".join(
                            n for i in inst for n in split[owner(i)])))
